@@ -1,11 +1,15 @@
-(** C19 — concurrent modifications are linearizable.  Proved on the interleaving model: mutual exclusion — under every
-    schedule at most one thread is inside a section guarded by the lock, so a modifying operation that runs entirely
-    inside the (re-entrant) filesystem lock is an atomic section and the final state is that of the order in which the
-    lock was acquired (C19_locked_partial: stated for the lock protocol, not for the filesystem state).  That every
-    modifying entry point of the real code does run inside the filesystem lock, and the resulting linearizability of
-    the tree and soundness of the image, are checked by controlled schedules on the real code. *)
+(** C19 — concurrent modifications are linearizable.  Proved on interleaving models, for any number of threads and EVERY
+    schedule: (1) mutual exclusion of the lock protocol recorded on the real code (C19_locked_partial: stated for the
+    lock protocol only); (2) linearizability of the shared state (C19_linearizable, for any state type; C19_fs_linearizable
+    is its instance on the filesystem model's state with the model's modifying operations as sections): when every
+    modifying operation runs — in however many pieces — between acquiring and releasing the one lock, then whenever the
+    lock is free the shared state is exactly the result of running the completed operations whole, one after the other,
+    in the order the lock was acquired; each thread's operations appear in that order in its program order, none lost
+    or duplicated; and inside an operation the state is the sequential state plus that operation's own executed prefix.
+    That every modifying entry point of the real code does run inside the filesystem lock (the premise the model builds
+    in), and the soundness of the resulting image, are checked by controlled schedules on the real code. *)
 From Coq Require Import ZArith List Bool.
-From PyFatV Require Import Proofs.Conc.
+From PyFatV Require Import Proofs.Linear Base.Bytes Base.PyEnv Model.FS Proofs.Conc.
 Import ListNotations.
 Open Scope Z_scope.
 
@@ -20,3 +24,25 @@ Theorem C19_sections_see_own_seek : forall dev progs p0 sched i r,
   solo dev U (progs i) = Some r.
 Proof. exact readers_solo. Qed.
 Print Assumptions C19_sections_see_own_seek.
+
+Theorem C19_linearizable : forall (S:Type) (progs:nat -> list (msteps S)) (s0:S) sched, let g := Linear.run S (Linear.init S progs s0) sched in
+  (Linear.owner S g = None -> sh S g = seq_run S (log S g) s0) /\
+  (forall i, Linear.owner S g = Some i -> exists pre done ms, log S g = pre ++ [(i, done ++ ms)] /\ cur S (ths S g i) = Some ms /\ sh S g = apply_ms S done (seq_run S pre s0)) /\
+  (forall i, secs_of S i (log S g) ++ todo S (ths S g i) = progs i) /\
+  (forall i j, cur S (ths S g i) <> None -> cur S (ths S g j) <> None -> i = j).
+Proof. exact linearizable. Qed.
+Print Assumptions C19_linearizable.
+(** a modifying operation of the filesystem model as a one-piece section: a refused operation changes nothing (C09) *)
+Definition op_section (f:st -> res st) : msteps st := [fun s => match f s with Ok s' => s' | Err _ => s end].
+Theorem C19_fs_linearizable : forall (progs:nat -> list (msteps st)) (s0:st) sched, let g := Linear.run st (Linear.init st progs s0) sched in
+  (forall i, todo st (ths st g i) = [] /\ cur st (ths st g i) = None) -> Linear.owner st g = None ->
+  sh st g = seq_run st (log st g) s0 /\ forall i, secs_of st i (log st g) = progs i.
+Proof. exact (all_done_is_sequential st). Qed.
+Print Assumptions C19_fs_linearizable.
+(* two threads, sections of two pieces that do not commute; thread 1 is scheduled while thread 0 is inside its section (and is
+   skipped: blocked on the lock): the result is that of the acquisition order 0, 1 — ((0+1)*2)*3+5 — not an interleaving of pieces *)
+Example C19_linearizable_example :
+  let progs := fun i => match i with 0%nat => [[Z.add 1; Z.mul 2]] | 1%nat => [[Z.mul 3; Z.add 5]] | _ => [] end in
+  let g := Linear.run Z (Linear.init Z progs 0) [0;1;0;1;1;0;1;0;1;1;1;1]%nat in
+  sh Z g = 11 /\ map fst (log Z g) = [0;1]%nat /\ Linear.owner Z g = None /\ todo Z (ths Z g 0%nat) = [] /\ todo Z (ths Z g 1%nat) = [].
+Proof. vm_compute. repeat split; reflexivity. Qed.
